@@ -51,6 +51,11 @@ def gen_cases(ctx):
     for i, (rx, tx) in enumerate([(1000, 5000), (5000, 1000), (50000, 10**6), (10**6, 50000), (7, 10**9)]):
         cid = 'V%d' % i
         lines.append('V %s %d %d' % (cid, rx, tx)); meta[cid] = dict(kind='V', rx=rx, tx=tx)
+    # fixed cases: the values the Coq development computes by vm_compute (C19_bound_inhabited, C19_refuted_small_rate)
+    # must be what the library computes: ties the in-Coq evaluation (not only the extraction) to the code
+    for cid, l, exp in [('Bfix0', 'B Bfix0 1000 1000 T:600 T:600 A:5 T:1000', 'w0 w200000000 - w1199999995'),
+                        ('Bfix1', 'B Bfix1 1000 1000 T:16401', 'w15401000000')]:
+        lines.append(l); meta[cid] = dict(kind='B', rate=1000, cap=1000, nops=len(l.split()) - 4, expect=exp)
     # bucket op sequences
     nb = 2000 if q else 40000
     for i in range(nb):
@@ -274,7 +279,7 @@ def eval_S(ctx, cid, m, out, vcache):
     if mv is None or (impl_rx, impl_tx) != mv:
         mism = 'MakeValve(%d,%d): implementation rx=%s tx=%s, model %s' % (m['rx'], m['tx'], impl_rx, impl_tx, mv)
     params = mv[1] if m['dir'] == 'tx' else mv[0]
-    if mism is None and m['dir'] == 'rx' and m['nsess'] == 1 and m['nconn'] == 1 and [e[1] for e in d['events']] != d['wire'].get('c0.0', []):
+    if mism is None and m['dir'] == 'rx' and m['nsess'] == 1 and m['nconn'] == 1 and len(m['writers']) == 1 and [e[1] for e in d['events']] != d['wire'].get('c0.0', []):
         mism = 'rx tap sizes differ from what the peer wrote'
     orc = oracle_S(m, d, params)
     if d.get('shared') != '1':
@@ -334,6 +339,8 @@ def correspondence(ctx, verdict, pr):
         elif k in 'VB':
             if model.get(cid) != impl[cid]:
                 mism.append((l, impl[cid], model.get(cid)))
+            elif meta[cid].get('expect') not in (None, impl[cid]):
+                mism.append((l, impl[cid], 'Coq vm_compute (Properties/C19.v): ' + meta[cid]['expect']))
     # scenarios
     vcache = {}
     glines, gexp = [], {}
@@ -381,7 +388,7 @@ def correspondence(ctx, verdict, pr):
     src, slog, stxt = sh.get('r', (1, 'not run', ''))
     if src != 0:
         res['broken'].append(('Go driver TestVerifC19Shared failed (rc=%d)' % src, slog[-3000:]))
-    for sig, what in check_shared(stxt):
+    for sig, what in check_shared(stxt)[:2]:
         verdict.oracle_failure(sig, 'C19 oracle (one valve per user): ' + what,
                                dict(driver='harness/server/c19_test.go TestVerifC19Shared', output=stxt))
         orc_new += 1
